@@ -4,8 +4,9 @@ _ENG = {"crate": "core", "bin": "sv-c09", "machine": "c09", "nontrivial_min_ops"
 
 PROP = {
     "generated": ["ReconTables"],
-    "lean_modules": ["SwimVerif.Model.Recon", "SwimVerif.Model.ReconProto", "SwimVerif.Proofs.Recon",
-                     "SwimVerif.Proofs.ReconFloat", "SwimVerif.Proofs.ReconStruct", "SwimVerif.Proofs.ReconStyles",
+    "lean_modules": ["SwimVerif.Model.Recon", "SwimVerif.Model.ReconProto", "SwimVerif.Model.ReconInc",
+                     "SwimVerif.Model.ReconIncProto", "SwimVerif.Proofs.Recon",
+                     "SwimVerif.Proofs.ReconFloat", "SwimVerif.Proofs.ReconStruct", "SwimVerif.Proofs.ReconStyles", "SwimVerif.Proofs.ReconInc", "SwimVerif.Proofs.ReconIncCoupled",
                      "SwimVerif.Generated.ReconTables"],
     "engines": [
         # model values -> real printers (exact text vs model print) and print/parse cycles (vs model parse)
@@ -17,6 +18,10 @@ PROP = {
         # texts through WithLenRecognizerDecoder and RecognizerDecoder vs uncut vs one-shot; no panic, no hang
         dict(_ENG, name="chunks", bin="sv-c09x", cases={"quick": 1600, "thorough": 60000}, min_shard=100, gen_args=["chunks"],
              modes=["monitor"]),
+        # the same five observations on documents where the model is an oracle (valid UTF-8, model floats), compared
+        # with the Lean model of RecognizerDecoder::{decode, decode_eof} / WithLenRecognizerDecoder on every cut
+        dict(_ENG, name="chunksm", bin="sv-c09x", machine="c09i", cases={"quick": 1200, "thorough": 40000}, min_shard=100,
+             gen_args=["chunksm"]),
         # derived Form types: parse::<T>(print(t)) == t for the three printers
         dict(_ENG, name="typed", bin="sv-c09x", cases={"quick": 1500, "thorough": 60000}, min_shard=500, gen_args=["typed"],
              modes=["monitor"]),
